@@ -63,6 +63,11 @@ def base_specs():
         E("heat_consumer", f=1, to=2, mdot=0.5, qext_w=10000.0, index=1), E("pipe", f=1, to=4, u=5.0, index=2),
         E("flow_control", f=1, to=2, index=0)],
         "flags": [("elem", 3), ("elem", 4), ("elem", 5), ("elem", 6), ("junction", 4)]})
+    S.append({"name": "w_pumps", "fluid": "water", "nj": 6, "elems": [
+        E("ext_grid", j=0, index=0), E("pump", f=0, to=1, std_type="P1", index=0), E("pump", f=0, to=2, std_type="P3", index=1),
+        E("pipe", f=1, to=3, index=0), E("pipe", f=2, to=3, index=1), E("pump", f=4, to=5, std_type="P2", index=2),
+        E("sink", j=3, index=0), E("sink", j=5, index=1), E("compressor", f=3, to=4, index=0, in_service=False)],
+        "flags": [("elem", 1), ("elem", 2), ("elem", 3), ("elem", 4)]})
     S.append({"name": "w_two_loops", "fluid": "water", "nj": 6, "mode": "sequential", "elems": [
         E("circ_pump_mass", ret=2, flow=0, index=0), E("circ_pump_pressure", ret=5, flow=3, index=0),
         E("pipe", f=0, to=1, u=4.0, index=0), E("heat_exchanger", f=1, to=2, index=0), E("pipe", f=3, to=4, u=4.0, index=1),
@@ -193,7 +198,7 @@ def jobs(tier, seed):
     rng = random.Random(4000 + seed)
     bases = base_specs()
     if tier == "quick":
-        bases = bases[:5]
+        bases = bases[:6]
     for s in bases:
         k = len(s["flags"])
         allp = list(itertools.product([True, False], repeat=k))
@@ -202,6 +207,8 @@ def jobs(tier, seed):
         else:
             pats = allp
         for bits in pats:
+            if s["name"] == "w_pumps" and not ((bits[0] and bits[2]) or (bits[1] and bits[3])):
+                continue        # the sink at junction 3 needs one complete supply path
             if s["name"] == "w_two_loops" and bits[0] and not (bits[2] or bits[3]):
                 continue        # first loop without any path for the prescribed flow (ill-posed)
             if s["name"] == "w_loop_seq" and not (bits[0] or bits[1] or bits[3]):
